@@ -364,3 +364,35 @@ func HarnessC19ExtCycle() {
 	verif.Reach("ext-cycle-packed")
 	verif.ObserveBool("ok", err == nil)
 }
+
+// HarnessC19Special: special files in and around the tree - a fifo in the tree, a fifo as the rule
+// file, links (dereferenced or not) to a fifo inside or outside the tree, a rule file that is a
+// link to a fifo. Opening a fifo for reading blocks until a writer shows up, so Pack must not open
+// one: in the model an open of a fifo raises the blocked flag, natively the run hangs and is
+// stopped by the watchdog.
+func HarnessC19Special() {
+	packWorld()
+	envMkfifo("/w/p")
+	envWriteFile(packSrc+"/a", 0644, 1000, "A")
+	switch verif.Choose("special", 6) {
+	case 0:
+		envMkfifo(packSrc + "/q")
+	case 1:
+		envMkfifo(packSrc + "/.terraformignore")
+	case 2:
+		envSymlink(packSrc+"/l", "../p", 1000)
+	case 3:
+		envMkfifo(packSrc + "/q")
+		envSymlink(packSrc+"/l", "q", 1000)
+	case 4:
+		envSymlink(packSrc+"/.terraformignore", "../p", 1000)
+	case 5:
+		envSymlink(packSrc+"/l", "/w/p", 1000)
+	}
+	p := packOptions()
+	envBaseline()
+	_, err := p.Pack(packSrc, envWriter())
+	verif.Reach("special-packed")
+	verif.ObserveBool("ok", err == nil)
+	verif.Assert("no-hang", !envBlocked())
+}
